@@ -46,7 +46,7 @@ def run_case(case: Dict[str, Any]) -> CaseResult:
 def strategy(tier: str) -> Any:
     modes = ("ctl", "ctl", "free", "ctl-ex") if tier == "thorough" else ("ctl", "ctl", "free", "ctl-ex")
     return sc.sched_case(tier=tier, modes=modes, dep_kinds=("pos", "kw"), flags=True, seq_rate=0.15, prio=(-2, 4),
-                         config_rate=0.1)
+                         config_rate=0.1, profile_rate=0.25)
 
 
 def run_shard(H: Harness) -> None:
